@@ -22,7 +22,15 @@ try:
     denv = 'VOTELIB_PATH=%s PYTHONPATH=%s' % (wt, wt)
     rc0, out0 = sh('%s /venv/bin/python %s' % (denv, demo), cwd=wt, timeout=600)
     rc, out = sh('git apply %s' % patch, cwd=wt)
-    assert rc == 0, 'patch does not apply: ' + out
+    if rc != 0:
+        # the tree moved on (fix: commits): rebase the change with fuzz and regenerate the diff
+        rc, out = sh('patch -p1 -F3 --no-backup-if-mismatch < %s' % patch, cwd=wt)
+        assert rc == 0, 'patch does not apply: ' + out
+        rc, out = sh('git diff -- votelib', cwd=wt)
+        rebased = os.path.join(src, 'patch.rebased.diff')
+        open(rebased, 'w').write(out)
+        meta['rebased'] = 'original patch.diff no longer applied after fix: commits in /repo; regenerated with patch -F3'
+        shutil.copy(rebased, patch)
     rct, outt = sh('/venv/bin/python -m pytest -q -p no:cacheprovider 2>&1 | tail -1', cwd=wt, timeout=1200)
     rc1, out1 = sh('%s /venv/bin/python %s' % (denv, demo), cwd=wt, timeout=600)
     meta.update(tests_with_change=outt.strip().splitlines()[-1] if outt.strip() else '',
